@@ -142,9 +142,67 @@ def output_fault_history(ctx, cases, results):
     return out
 
 
+def input_fault_history(ctx, cases, results):
+    """Input-side fault: the blueprint's registration locations point at a source file that cannot be read (the sources moved
+    after the blueprint was persisted). Diagnostics that want to show a snippet then fail to load it; whatever happens, the
+    run must still end with a verdict: exit 0 with the SDK written, or exit 1 with some error report and the SDK untouched."""
+    from e2e import engine, evaluate
+    out = {"input_fault_histories": 0, "input_fault_failed_runs": 0, "input_fault_runs_with_warnings": 0}
+    picked = [c for c in cases if c["mode"] == "inclass" and not c.get("regress")
+              and results.get(c["id"], {}).get("stages", {}).get("pavexc", {}).get("rc") == 0][:(3 if ctx.quick else 12)]
+    lock = threading.Lock()
+
+    def work(slot, c):
+        with engine.SlotLock(slot):
+            d = slots.slot_dir(slot)
+            slots.write_case(slot, c["spec"])
+            ok, _ = slots.build_app(slot)
+            if not ok or slots.run_pavexc(slot)["rc"] != 0:
+                return
+            ron = os.path.join(d, "bp.ron")
+            with open(ron) as f:
+                txt = f.read()
+            with open(ron, "w") as f:
+                f.write(txt.replace('file: "app/src/lib.rs"', 'file: "app/src/moved_away.rs"'))
+            before = slots.sdk_snapshot(d)
+            r = slots.run_pavexc(slot)
+            after = slots.sdk_snapshot(d)
+            with open(ron, "w") as f:
+                f.write(txt)
+        cls = engine.classify_stderr(r["stderr"])
+        plain = engine.strip_ansi(r["stderr"])
+        changed = sorted(k for k in set(before) | set(after) if before.get(k) != after.get(k) and k.startswith("sdk/"))
+        with lock:
+            out["input_fault_histories"] += 1
+            if cls["n_warning"]:
+                out["input_fault_runs_with_warnings"] += 1
+            sig = None
+            if r["timeout"]:
+                sig = {"rule": "timeout", "fault": "source_file_unreadable"}
+            elif cls["panicked"] or r["rc"] not in (0, 1):
+                sig = {"rule": "panic", "fault": "source_file_unreadable", "loc": evaluate.norm_loc(cls["panic_loc"]), "msg": evaluate.norm_msg(cls["panic_msg"])}
+            elif r["rc"] != 0:
+                out["input_fault_failed_runs"] += 1
+                # (a report that failed to load its snippet carries no ERROR header: any `×` line counts as an error report)
+                if cls["n_error"] == 0 and not re.search(r"(?m)^\s*× ", plain):
+                    sig = {"rule": "failure_without_diagnostic", "fault": "source_file_unreadable"}
+                elif changed:
+                    sig = {"rule": "sdk_modified_on_failure", "fault": "source_file_unreadable"}
+            if sig:
+                ctx.violation(sig, {"case": c["id"], "rc": r["rc"], "changed": changed, "stderr": plain[-1500:], "spec": c["spec"]})
+    ths = [threading.Thread(target=work, args=(i % e2e_env.N_SLOTS, c)) for i, c in enumerate(picked)]
+    for k in range(0, len(ths), e2e_env.N_SLOTS):
+        for t in ths[k:k + e2e_env.N_SLOTS]:
+            t.start()
+        for t in ths[k:k + e2e_env.N_SLOTS]:
+            t.join()
+    return out
+
+
 def extra(ctx, cases, results):
     out = planted_corpus(ctx)
     out.update(output_fault_history(ctx, cases, results))
+    out.update(input_fault_history(ctx, cases, results))
     out.update(valgrind_supplement(ctx, cases, results))
     return out
 
